@@ -140,6 +140,18 @@ pub fn rand_instance(r: &mut Rng, o: &InstOpts) -> Inst {
     }
     r.shuffle(&mut deps_json);
     let mut vj: Vec<Value> = vars.iter().map(|v| v.to_json(r)).collect();
+    // sometimes a variable the problem does not use carries a previously fixed value (substituted_value);
+    // states may still mention it, with the same or another in-bound value
+    if !irrelevant.is_empty() && r.chance(1, 3) {
+        let vid = irrelevant[0];
+        let spec = vars.iter().find(|v| v.id == vid).unwrap();
+        let val = spec.value(r);
+        for v in vj.iter_mut() {
+            if v["id"] == vid {
+                v["fixed"] = json!([val]);
+            }
+        }
+    }
     if r.chance(1, 3) {
         r.shuffle(&mut vj);
     }
